@@ -1,9 +1,19 @@
-"""C12 - PDU factory and holder (engine V).  DESIGN.md section 4, C12.
+"""C12 - PDU factory and holder (engine V + engine H for the holder).  DESIGN.md section 4, C12.
 
-For every reference-encoded PDU: type(PduFactory.from_raw(raw)) is exactly the kind's class, every observable equals
-the recipe, == the constructed original (both directions), re-pack == raw; PduFactory.pdu_type / is_file_directive /
-pdu_directive_type equal the reference extraction from the raw octets; the full 8x8 matrix of PduHolder accessors
-(held kind x requested kind): the matching accessor returns the held object, every other raises TypeError.
+matrix shards   For every reference-encoded PDU: type(PduFactory.from_raw(raw)) is exactly the kind's class, every
+                observable equals the recipe, == the constructed original (both directions), re-pack == raw;
+                PduFactory.pdu_type / is_file_directive / pdu_directive_type equal the reference extraction from the raw
+                octets; the full 8x8 matrix of PduHolder accessors (held kind x requested kind): the matching accessor
+                returns the held object, every other raises TypeError.  Segmentation control is a crossed header axis for
+                ALL kinds (bit 7 of the octet that carries the two width fields the factory reads).
+indep shards    Independence of what the factory hands out (mc.alias.Keeper): every result of from_raw /
+                from_raw_to_holder (and the constructed original it has to equal) of kind a is re-observed after the
+                factory decoded / the constructor built a PDU of kind b - all 64 (a, b), b's configuration being the
+                complement of a's in every header axis (all 256 configurations of a) or the same configuration.
+hist shards     PduHolder is a mutable object with a public `pdu` attribute (and the deprecated public `base`
+                property): every event history up to the depth bound over {assign a PDU of kind k through either, read
+                any of its 15 observers} from every start state, each step compared with the model "the holder holds the
+                object assigned last".
 
 Decode failures of a PDU class seen through the factory carry the prefix 'C12.factory/PduFactory.from_raw(<Class>)'
 so that they are attributable to the same code sites C06 / C07 report as '<Class>.unpack'."""
@@ -13,6 +23,7 @@ from __future__ import annotations
 import itertools
 
 from mc import domains as D
+from mc.alias import Keeper
 from mc.rec import Rec
 from ref import cfdp as R
 from units import cfdp_pdu as U
@@ -21,38 +32,113 @@ PROPERTY = "C12"
 LEVEL = "model_checking"  # bounded-exhaustive enumeration of executions against a reference model (DESIGN.md 1, 2.1)
 EXHAUSTIVE = True
 RULE = (
-    "case = (PDU kind, header configuration, ID value scheme, parameter set). 8 kinds x 128 header configurations (CRC x "
-    "large-file x ID width x sequence width x transmission mode; File Data alternates segmentation control) x 2 ID "
-    "schemes (asymmetric default; octets that look like directive codes 0x04..0x0C, so that a directive octet looked up "
-    "at a wrong offset among the 16 possible ones is seen) x the kind's parameter sets (minimal, all optional parts; "
-    "File Data also empty data); under the directive-code ID scheme additionally every parameter vector of the C06 / C07 "
-    "quick enumeration within deviation bound d of the default vector (ACK and Prompt: full product). Each case runs the factory decode, the three raw-buffer "
-    "inspectors and the 8 holder accessors on a holder obtained from the factory and on a holder around the constructed "
-    "object (for the corpus parameter sets), i.e. all 64 (held kind, requested kind) pairs in every configuration. Cases are pairwise distinct by "
-    "construction (shards partition kind x configuration)."
+    "Three families of cases, all complete enumerations. (1) matrix: case = (PDU kind, header configuration, ID value "
+    "scheme, parameter set). 8 kinds x 256 header configurations (CRC x large-file x ID width x sequence width x "
+    "transmission mode x segmentation control - the latter for file directives too: it shares octet 3 with the two width "
+    "fields the factory reads to find the directive octet) x 2 ID schemes (asymmetric default; octets that look like "
+    "directive codes 0x04..0x0C, so that a directive octet looked up at a wrong offset among the 16 possible ones is "
+    "seen) x the kind's parameter sets (minimal, all optional parts; File Data also empty data); under the "
+    "directive-code ID scheme additionally every parameter vector of the C06 / C07 quick enumeration within deviation "
+    "bound d of the default vector (ACK and Prompt: full product). Each case runs the factory decode, the three "
+    "raw-buffer inspectors and the 8 holder accessors on a holder obtained from the factory and on a holder around the "
+    "constructed object (for the corpus parameter sets), i.e. all 64 (held kind, requested kind) pairs in every "
+    "configuration; the PDUs held by these holders are re-observed after the next 2 cases. Shards partition kind x "
+    "configuration such that every shard contains every value of every configuration axis. (2) independence: case = "
+    "(earlier kind a, later kind b, configuration of a, relation, parameter sets): a is decoded by from_raw and by "
+    "from_raw_to_holder and constructed, then b is decoded by both entry points and constructed, then the three results "
+    "of a are observed again (all fields, packet_len, pack()) and a's holder must still answer all 8 accessors for kind "
+    "a; the inspectors are evaluated on b's octets after a's. relation 'complement': all 256 configurations of a, b's "
+    "configuration differs in every header axis and in every ID octet, parameter sets (minimal, full) and (full, minimal); "
+    "relation 'same': the 16 configurations of a Latin square (every width pair and every flag combination once), same "
+    "configuration and IDs for b, all 4 parameter-set pairs. (3) holder histories: case = (start state, origin of the "
+    "assigned PDUs, event sequence of exactly the depth bound). Start states: PduHolder(None), PduHolder(<constructed "
+    "PDU of kind k>), PduFactory.from_raw_to_holder(<octets of kind k>) for the 8 kinds. Events (31): `holder.pdu = x` "
+    "and `holder.base = x` for a PDU x of each of the 8 kinds (constructed or decoded objects), and the 15 observers "
+    "pdu, base, pdu_type, is_file_directive, pdu_directive_type, packet_len, pack(), to_<kind>_pdu() x 8. After every "
+    "event the observation is compared with the model (the object assigned last: identity for pdu / base / the matching "
+    "accessor, TypeError for the 7 others, PDU type and directive code of its kind, its own packet_len / pack()); after "
+    "the last event all 15 observers are evaluated once more. Observers on a holder that holds nothing are outside the "
+    "property (those histories are not generated). All cases are pairwise distinct by construction."
 )
-BOUNDS = {"quick": "d<=1", "thorough": "d<=2 in 2 backgrounds (the whole C06 / C07 quick enumeration)"}
+BOUNDS = {
+    "quick": "matrix d<=1; holder histories of 3 events (+ final sweep of the 15 observers), one header configuration per start state",
+    "thorough": "matrix d<=2 in 2 backgrounds (the whole C06 / C07 quick enumeration); holder histories of 4 events (+ final sweep)",
+}
 ASSUMPTIONS = [
     "reference encoder / extractor ref/cfdp.py transcribes CCSDS 727.0-B-5 (bound to the repository's byte vectors by selftest/st_ref_cfdp.py)",
     "the factory is fed reference octets; that the library's own pack() produces the same octets is C06 / C07",
+    "holder histories: packet_len / pack() of a holder are compared with what the held PDU itself answered when it was created (delegation), not with reference octets (C06 / C07)",
+    "segmentation control on a file directive PDU: the standard says the bit is ignored for directives; PduConfig.seg_ctrl is a public field, the header codec carries it for every PDU type (C05), so the factory has to cope with it",
 ]
 
-CFGS = [{"crc": c, "large": l, "idw": i, "seqw": s, "mode": m}
-        for c, l, i, s, m in itertools.product((0, 1), (0, 1), (1, 2, 4, 8), (1, 2, 4, 8), (0, 1))]
+WIDTHS = (1, 2, 4, 8)
+CFGS = [{"crc": c, "large": l, "idw": i, "seqw": s, "mode": m, "segctrl": g}
+        for c, l, i, s, m, g in itertools.product((0, 1), (0, 1), WIDTHS, WIDTHS, (0, 1), (0, 1))]
 ACCESSORS = {
     "EofPdu": "to_eof_pdu", "FinishedPdu": "to_finished_pdu", "AckPdu": "to_ack_pdu", "MetadataPdu": "to_metadata_pdu",
     "NakPdu": "to_nak_pdu", "PromptPdu": "to_prompt_pdu", "KeepAlivePdu": "to_keep_alive_pdu", "FileDataPdu": "to_file_data_pdu",
 }
+ACC_KIND = {v: k for k, v in ACCESSORS.items()}
+
+# ---- holder histories: alphabet ---------------------------------------------------------------------------------------
+SET_METHODS = ("pdu", "base")
+OBSERVERS = ["pdu", "base", "pdu_type", "is_file_directive", "pdu_directive_type", "packet_len", "pack"] + list(ACCESSORS.values())
+EVENTS = [["set", m, k] for m in SET_METHODS for k in R.KINDS] + [["get", o] for o in OBSERVERS]
+N_SET = len(SET_METHODS) * len(R.KINDS)
+STARTS = [["none", None, "constructed"], ["none", None, "decoded"]] + \
+         [["ctor", k, "constructed"] for k in R.KINDS] + [["factory", k, "decoded"] for k in R.KINDS]
+HIST_DEPTH = {"quick": 3, "thorough": 4}
+
+
+def _flag_index(cfg):
+    return cfg["crc"] + 2 * cfg["large"] + 4 * cfg["mode"] + 8 * cfg["segctrl"]
+
+
+def _latin(cfg):
+    """0..15; together with n | 16: residue classes that contain every value of every axis"""
+    return 4 * WIDTHS.index(cfg["idw"]) + WIDTHS.index(cfg["seqw"]) + 5 * _flag_index(cfg)
+
+
+def cfg_parts(n):
+    """partition of the configuration indices into n (4, 8 or 16) parts of equal size; every part contains every value of
+    every axis and consecutive members differ in several axes at once (what a state leak between decodes needs)"""
+    parts = [[] for _ in range(n)]
+    for idx, cfg in enumerate(CFGS):
+        parts[_latin(cfg) % n].append(idx)
+    return parts
+
+
+SAME_CFGS = [i for i, c in enumerate(CFGS) if _flag_index(c) == 4 * WIDTHS.index(c["idw"]) + WIDTHS.index(c["seqw"])]
+
+
+def complement(cfg):
+    """the configuration that differs in every header axis and (other ID scheme) in every ID octet"""
+    nxt = {1: 2, 2: 4, 4: 8, 8: 1}
+    return {"crc": 1 - cfg["crc"], "large": 1 - cfg["large"], "idw": nxt[cfg["idw"]], "seqw": nxt[nxt[cfg["seqw"]]],
+            "mode": 1 - cfg["mode"], "segctrl": 1 - cfg["segctrl"], "ids": "std" if cfg.get("ids", "std") == "dir" else "dir"}
 
 
 def shards(tier):
     items = []
+    nparts = 8 if tier == "quick" else 16
     for kind in U.PDU_KINDS:
-        for idxs in D.chunks(list(range(len(CFGS))), 4 if tier == "quick" else 16):
-            items.append({"kind": kind, "cfgs": idxs, "tier": tier})
+        for idxs in cfg_parts(nparts):
+            items.append({"mode": "matrix", "kind": kind, "cfgs": idxs, "tier": tier})
+    for kind in U.PDU_KINDS:
+        for idxs in cfg_parts(4):
+            items.append({"mode": "indep", "kind": kind, "cfgs": idxs, "tier": tier})
+    depth = HIST_DEPTH[tier]
+    for si, start in enumerate(STARTS):
+        firsts = list(range(N_SET if start[0] == "none" else len(EVENTS)))
+        for fs in D.chunks(firsts, 4 if tier == "quick" else len(firsts)):
+            # one header configuration per start state, spread over the configuration space
+            items.append({"mode": "hist", "start": start, "firsts": fs, "depth": depth, "cfg": (si * 29 + 7) % len(CFGS), "tier": tier})
     return items
 
 
+# ======================================================================================================================
+# matrix
+# ======================================================================================================================
 def _deviations(kind, v):
     d = U.PARAM_DEFAULT[kind]
     n = 0
@@ -99,6 +185,10 @@ def param_sets(unit, cfg, with_vectors, tier):
     for tag in unit.param_set_tags():
         c = dict(cfg)
         p = unit.param_set(tag, c)
+        if c != cfg:
+            # the parameter set needs another configuration (File Data with segment metadata sets segmentation
+            # control): it is enumerated under that configuration, which is a member of CFGS
+            continue
         out.append((c, p))
     if with_vectors:
         seen = {repr(U.hexed(p)) for _, p in out}
@@ -108,27 +198,28 @@ def param_sets(unit, cfg, with_vectors, tier):
     return out
 
 
-def check_inspectors(rec, kind, recipe, raw):
+def check_inspectors(rec, kind, recipe, raw, clause="inspect"):
     """PduFactory.pdu_type / is_file_directive / pdu_directive_type versus the reference extraction"""
     case = {"kind": "inspect", "unit": kind, "recipe": U.hexed(U.norm(recipe))}
     F = U.L.PduFactory
     exp_type, exp_dir = R.pdu_type(raw), R.directive_code(raw)
-    feats = f"/idw={recipe['cfg']['idw']}/seqw={recipe['cfg']['seqw']}"
+    cfg = recipe["cfg"]
+    feats = f"/idw={cfg['idw']}/seqw={cfg['seqw']}" + ("/segctrl=1" if cfg.get("segctrl") else "")
     for name, call, exp in (("pdu_type", lambda: int(F.pdu_type(raw)), exp_type),
                             ("is_file_directive", lambda: bool(F.is_file_directive(raw)), exp_type == 0),
                             ("pdu_directive_type", lambda: (lambda x: None if x is None else int(x))(F.pdu_directive_type(raw)), exp_dir)):
         try:
             got = call()
         except Exception as e:
-            rec.violation(f"C12.inspect/PduFactory.{name}/exception/{kind}{feats}", case, repr(e), exp)
+            rec.violation(f"C12.{clause}/PduFactory.{name}/exception/{kind}{feats}", case, repr(e), exp)
             continue
         if got != exp:
-            rec.violation(f"C12.inspect/PduFactory.{name}/wrong-answer/{kind}{feats}", case, got, exp)
+            rec.violation(f"C12.{clause}/PduFactory.{name}/wrong-answer/{kind}{feats}", case, got, exp)
 
 
-def check_holder(rec, kind, recipe, holder, origin):
+def check_holder(rec, kind, recipe, holder, origin, case=None, held=None):
     """8 accessors on a holder that holds a PDU of `kind`"""
-    case = {"kind": "holder", "unit": kind, "origin": origin, "recipe": U.hexed(U.norm(recipe))}
+    case = case or {"kind": "holder", "unit": kind, "origin": origin, "recipe": U.hexed(U.norm(recipe))}
     for want, acc in ACCESSORS.items():
         try:
             got = getattr(holder, acc)()
@@ -142,11 +233,21 @@ def check_holder(rec, kind, recipe, holder, origin):
             continue
         if want != kind:
             rec.violation(f"C12.holder/PduHolder.{acc}/other-kind-accepted/held={kind}/{origin}", case, type(got).__name__, "TypeError")
-        elif got is not holder.pdu or type(got) is not U.UNITS[kind].cls():
+        elif got is not holder.pdu or type(got) is not U.UNITS[kind].cls() or (held is not None and got is not held):
             rec.violation(f"C12.holder/PduHolder.{acc}/not-the-held-object/held={kind}/{origin}", case, type(got).__name__, kind)
 
 
-def factory_case(rec, kind, recipe, holder_too=True):
+def pdu_observer(unit):
+    """everything the property says about a decoded PDU, as a plain value (copies)"""
+    cls = unit.cls()
+
+    def f(o):
+        return (type(o) is cls, unit.observe(o), int(o.packet_len), int(o.pdu_data_field_len), bytes(o.pack()))
+
+    return f
+
+
+def factory_case(rec, kind, recipe, holder_too=True, keeper=None):
     unit = U.UNITS[kind]
     raw = unit.ref(recipe)
     rec.case(True, ops=U.OPS_PER_CASE + 3 + (16 if holder_too else 0))
@@ -155,6 +256,7 @@ def factory_case(rec, kind, recipe, holder_too=True):
     check_inspectors(rec, kind, recipe, raw)
     if not holder_too:
         return
+    hcase = {"kind": "holder", "unit": kind, "origin": "from_raw_to_holder", "recipe": U.hexed(U.norm(recipe))}
     try:
         holder = U.L.PduFactory.from_raw_to_holder(raw)
         if type(holder.pdu) is not unit.cls():
@@ -164,35 +266,287 @@ def factory_case(rec, kind, recipe, holder_too=True):
     if holder is not None:
         check_holder(rec, kind, recipe, holder, "from_raw_to_holder")
         rec.count("holder_pairs_checked", 8)
+        if keeper is not None and ok:
+            keeper.hold("PduFactory.from_raw_to_holder", holder.pdu, pdu_observer(unit), hcase)
     try:
         obj = unit.build(recipe)
     except Exception:
         rec.count("original_not_constructible")
         return
-    check_holder(rec, kind, recipe, U.L.PduHolder(obj), "constructed")
+    check_holder(rec, kind, recipe, U.L.PduHolder(obj), "constructed", held=obj)
     rec.count("holder_pairs_checked", 8)
 
 
-def run_shard(item):
-    rec = Rec(PROPERTY, item)
+def run_matrix(rec, item):
     kind, tier = item["kind"], item["tier"]
     unit = U.UNITS[kind]
+    keeper = Keeper(rec, PROPERTY, depth=2)
     for ci in item["cfgs"]:
         base = dict(CFGS[ci])
-        if kind == "FileDataPdu":
-            base["segctrl"] = ci % 2
         n = 0
         for scheme in ("dir", "std"):
             cfg = dict(base, ids=scheme)
             for c, p in param_sets(unit, cfg, scheme == "dir", tier):
                 n += 1
                 # the holder matrix does not depend on the parameter vector: all 64 pairs for the corpus sets only
-                factory_case(rec, kind, {"cfg": c, "params": p}, holder_too=n <= 6)
+                recipe = {"cfg": c, "params": p}
+                factory_case(rec, kind, recipe, holder_too=n <= 6, keeper=keeper)
+                keeper.recheck({"kind": "holder", "unit": kind, "recipe": U.hexed(recipe)})
                 rec.count(f"{kind}_cases")
+                if c.get("segctrl"):
+                    rec.count(f"{kind}_cases_with_segmentation_control")
         recipe = {"cfg": dict(base, ids="dir"), "params": unit.param_set("full", dict(base))}
         raw = unit.ref(recipe)
         rec.sample({"kind": kind, "recipe": U.hexed(recipe), "raw": raw[:96], "expected_class": kind, "expected_pdu_type": R.pdu_type(raw),
                     "expected_directive_code": R.directive_code(raw), "directive_octet_offset": R.header_len(raw)}, limit=1)
+    keeper.flush()
+
+
+# ======================================================================================================================
+# independence of the factory's results (theme: hidden shared mutable state)
+# ======================================================================================================================
+def _recipe(kind, cfg, tag):
+    c = dict(cfg)
+    p = U.UNITS[kind].param_set(tag, c)
+    return {"cfg": c, "params": p}
+
+
+def indep_case(rec, a, b, ci, rel, tag_a, tag_b):
+    """decode / construct a; decode / construct b; the results of a must not have changed"""
+    case = {"kind": "indep", "unit": a, "later": b, "ci": ci, "rel": rel, "tags": [tag_a, tag_b]}
+    ua, ub = U.UNITS[a], U.UNITS[b]
+    cfg_a = dict(CFGS[ci], ids="dir" if (tag_a == "min" or rel == "same") else "std")
+    cfg_b = complement(cfg_a) if rel == "complement" else dict(cfg_a)
+    ra, rb = _recipe(a, cfg_a, tag_a), _recipe(b, cfg_b, tag_b)
+    raw_a, raw_b = ua.ref(ra), ub.ref(rb)
+    F = U.L.PduFactory
+    keeper = Keeper(rec, PROPERTY, depth=3)
+    obs = pdu_observer(ua)
+    rec.case(True, ops=6 + 3 + 8 + 3)
+    holder = None
+    try:
+        first = F.from_raw(raw_a)
+        holder = F.from_raw_to_holder(raw_a)
+    except Exception:
+        rec.count("indep_earlier_not_decodable")  # reported by the factory clause of the matrix shards
+        return
+    if type(first) is not ua.cls() or type(holder.pdu) is not ua.cls():
+        rec.count("indep_earlier_not_decodable")
+        return
+    held = holder.pdu
+    keeper.hold(f"PduFactory.from_raw({a})", first, obs, case)
+    keeper.hold("PduFactory.from_raw_to_holder", held, obs, case)
+    try:
+        keeper.hold("constructed-original", ua.build(ra), obs, case)
+    except Exception:
+        rec.count("original_not_constructible")
+    # ---- later use of the library: kind b
+    try:
+        F.from_raw(raw_b)
+        F.from_raw_to_holder(raw_b)
+    except Exception:
+        rec.count("indep_later_not_decodable")
+    try:
+        ub.build(rb)
+    except Exception:
+        rec.count("original_not_constructible")
+    check_inspectors(rec, b, rb, raw_b, clause="inspect-after-other-kind")
+    keeper.recheck({"later": b, "recipe": U.hexed(rb)})
+    keeper.flush()
+    if holder.pdu is not held:
+        rec.violation("C12.independence/PduHolder.pdu/replaced-by-a-later-call", case, type(holder.pdu).__name__, a)
+    else:
+        check_holder(rec, a, ra, holder, "from_raw_to_holder-after-other-kind", case=case, held=held)
+    rec.count("holder_pairs_checked", 8)
+    rec.count("independence_pairs")
+    rec.outcome(f"indep:{a}:{b}:{rel}")
+
+
+def indep_pairs(ci):
+    out = [("complement", "min", "full"), ("complement", "full", "min")]
+    if ci in SAME_CFGS:
+        out += [("same", ta, tb) for ta in ("min", "full") for tb in ("min", "full")]
+    return out
+
+
+def run_indep(rec, item):
+    a = item["kind"]
+    for ci in item["cfgs"]:
+        for rel, ta, tb in indep_pairs(ci):
+            for b in U.PDU_KINDS:
+                indep_case(rec, a, b, ci, rel, ta, tb)
+
+
+# ======================================================================================================================
+# holder histories (theme: stale state after setter sequences)
+# ======================================================================================================================
+class Held:
+    __slots__ = ("kind", "obj", "cls", "ptype", "code", "plen", "packed")
+
+    def __init__(self, kind, obj):
+        self.kind, self.obj, self.cls = kind, obj, U.UNITS[kind].cls()
+        self.ptype = R.FILE_DATA if kind == "FileDataPdu" else R.FILE_DIRECTIVE
+        self.code = R.DIRECTIVE_CODE.get(kind)
+        try:
+            self.plen, self.packed = int(obj.packet_len), bytes(obj.pack())
+        except Exception:
+            self.plen = self.packed = None  # C06 / C07
+
+
+def hist_pool(cfg_index):
+    """one PDU per kind and origin (minimal parameter set) + the octets the factory start states decode"""
+    cfg = dict(CFGS[cfg_index], ids="dir")
+    pool, raws = {"constructed": {}, "decoded": {}}, {}
+    for kind in R.KINDS:
+        unit = U.UNITS[kind]
+        recipe = _recipe(kind, cfg, "min")
+        raws[kind] = unit.ref(recipe)
+        try:
+            o = unit.build(recipe)
+            pool["constructed"][kind] = Held(kind, o) if type(o) is unit.cls() else None
+        except Exception:
+            pool["constructed"][kind] = None
+        try:
+            o = U.L.PduFactory.from_raw(raws[kind])
+            pool["decoded"][kind] = Held(kind, o) if type(o) is unit.cls() else None
+        except Exception:
+            pool["decoded"][kind] = None  # reported by the factory clause of the matrix shards
+    return pool, raws
+
+
+def observe_holder(holder, name, ent):
+    """None when the observer agrees with the model 'the holder holds ent', else (what, observed, expected)"""
+    want = ACC_KIND.get(name)
+    try:
+        if want is not None:
+            got = getattr(holder, name)()
+        elif name == "pack":
+            got = holder.pack()
+        else:
+            got = getattr(holder, name)
+    except TypeError as e:
+        if want is not None:
+            return None if want != ent.kind else ("matching-kind-refused", "TypeError", ent.kind)
+        return ("other-exception/TypeError", repr(e), "an answer")
+    except Exception as e:
+        return ("other-exception/" + type(e).__name__, repr(e), "TypeError" if (want is not None and want != ent.kind) else "an answer")
+    if want is not None:
+        if want != ent.kind:
+            return ("other-kind-accepted", type(got).__name__, "TypeError (holding %s)" % ent.kind)
+        if got is not ent.obj or type(got) is not ent.cls:
+            return ("not-the-held-object", type(got).__name__, ent.kind)
+        return None
+    if name in ("pdu", "base"):
+        return None if got is ent.obj else ("not-the-held-object", type(got).__name__, ent.kind)
+    if name == "pdu_type":
+        got, exp = int(got), ent.ptype
+    elif name == "is_file_directive":
+        got, exp = bool(got), ent.ptype == R.FILE_DIRECTIVE
+    elif name == "pdu_directive_type":
+        got, exp = (None if got is None else int(got)), ent.code
+    elif name == "packet_len":
+        got, exp = int(got), ent.plen
+    else:
+        got, exp = bytes(got), ent.packed
+    if exp is None and name in ("packet_len", "pack"):
+        return None
+    return None if got == exp else ("wrong-answer", got, exp)
+
+
+def make_start(start, pool, raws):
+    """(holder, model) of a start state; None when the start state cannot be built on this tree"""
+    how, kind, _origin = start
+    H = U.L.PduHolder
+    if how == "none":
+        return H(None), None
+    if how == "ctor":
+        ent = pool["constructed"][kind]
+        return (H(ent.obj), ent) if ent is not None else None
+    try:
+        holder = U.L.PduFactory.from_raw_to_holder(raws[kind])
+    except Exception:
+        return None
+    if type(holder.pdu) is not U.UNITS[kind].cls():
+        return None
+    return holder, Held(kind, holder.pdu)
+
+
+def run_history(rec, start, cfg_index, events, pool, raws, sweep=True):
+    """execute one history on a fresh holder; True: executed and consistent, False: violation, None: not executable"""
+    st = make_start(start, pool, raws)
+    if st is None:
+        return None
+    holder, cur = st
+    via = {"none": "nothing", "ctor": "constructor", "factory": "from_raw_to_holder"}[start[0]]
+    origin = start[2]
+
+    def report(name, bad, upto, swept):
+        case = {"kind": "hist", "unit": cur.kind if cur is not None else None, "start": start, "cfg": cfg_index,
+                "events": [list(e) for e in events[:upto]], "sweep": swept}
+        rec.violation(f"C12.history/PduHolder.{name}/{bad[0]}/held-via={via}", case, bad[1], bad[2])
+
+    n = 0
+    for i, ev in enumerate(events):
+        n += 1
+        if ev[0] == "set":
+            ent = pool[origin][ev[2]]
+            if ent is None:
+                return None
+            try:
+                setattr(holder, ev[1], ent.obj)
+            except Exception as e:
+                cur = ent
+                report(ev[1] + "=", ("assignment-refused", repr(e), "assigned"), i + 1, False)
+                return False
+            cur, via = ent, ev[1] + "="
+        else:
+            bad = observe_holder(holder, ev[1], cur)
+            if bad is not None:
+                report(ev[1], bad, i + 1, False)
+                return False
+    if sweep:
+        for name in OBSERVERS:
+            n += 1
+            bad = observe_holder(holder, name, cur)
+            if bad is not None:
+                report(name, bad, len(events), True)
+                return False
+    rec.ops += n
+    return True
+
+
+def run_hist(rec, item):
+    start, depth, ci = item["start"], item["depth"], item["cfg"]
+    pool, raws = hist_pool(ci)
+    everything = list(range(len(EVENTS)))
+    for first in item["firsts"]:
+        for rest in itertools.product(everything, repeat=depth - 1):
+            idxs = (first,) + rest
+            events = [EVENTS[i] for i in idxs]
+            res = run_history(rec, start, ci, events, pool, raws)
+            if res is None:
+                rec.count("histories_not_executable_on_this_tree")
+                continue
+            rec.case(True)
+            rec.count("holder_histories")
+            rec.count("holder_history_events", depth)
+    cfg = dict(CFGS[ci], ids="dir")
+    rec.sample({"kind": "holder history", "start": start, "configuration": cfg,
+                "events": ([EVENTS[item["firsts"][0]], ["get", "pdu_directive_type"], ["set", "pdu", "NakPdu"], ["get", "to_nak_pdu"]])[:depth],
+                "expected": "after every event the holder answers for the PDU assigned last"}, limit=1)
+    rec.outcome(f"hist:{start[0]}:{start[1]}:{start[2]}")
+
+
+# ======================================================================================================================
+def run_shard(item):
+    rec = Rec(PROPERTY, item)
+    mode = item.get("mode", "matrix")
+    if mode == "matrix":
+        run_matrix(rec, item)
+    elif mode == "indep":
+        run_indep(rec, item)
+    else:
+        run_hist(rec, item)
     return rec.result()
 
 
@@ -202,6 +556,12 @@ def replay(case):
     if case["kind"] == "pdu":
         rec.case(True, ops=U.OPS_PER_CASE)
         U.judge(rec, PROPERTY, "factory", U.UNITS[kind], case["recipe"], case.get("via", "factory"), case.get("enc", False))
+    elif case["kind"] == "indep":
+        indep_case(rec, case["unit"], case["later"], case["ci"], case["rel"], case["tags"][0], case["tags"][1])
+    elif case["kind"] == "hist":
+        pool, raws = hist_pool(case["cfg"])
+        rec.case(True)
+        run_history(rec, case["start"], case["cfg"], [list(e) for e in case["events"]], pool, raws, sweep=case.get("sweep", True))
     else:
         factory_case(rec, kind, case["recipe"], holder_too=True)
     return rec.result()
@@ -211,8 +571,17 @@ def finalize(tier, agg):
     c = agg["counters"]
     return {
         "header_configurations_crossed": len(CFGS),
+        "segmentation_control_crossed_for_all_kinds": True,
         "directive_octet_offsets_exercised": sorted({4 + 2 * i + s for i in (1, 2, 4, 8) for s in (1, 2, 4, 8)}),
         "cases_per_kind": {k: c.get(f"{k}_cases", 0) for k in U.PDU_KINDS},
+        "cases_per_kind_with_segmentation_control": {k: c.get(f"{k}_cases_with_segmentation_control", 0) for k in U.PDU_KINDS},
         "holder_accessor_calls": c.get("holder_pairs_checked", 0),
         "held_kind_x_requested_kind_pairs": 64,
+        "independence_pairs_earlier_kind_x_later_kind_x_configuration": c.get("independence_pairs", 0),
+        "independence_results_held": c.get("independence_results_held", 0),
+        "independence_reobservations": c.get("independence_reobservations", 0),
+        "holder_history_alphabet": {"assignments": N_SET, "observers": len(OBSERVERS), "start_states": len(STARTS)},
+        "holder_history_depth": HIST_DEPTH[tier],
+        "holder_histories": c.get("holder_histories", 0),
+        "holder_history_events": c.get("holder_history_events", 0),
     }
